@@ -30,6 +30,10 @@ pub enum T {
     SetBig,
     AppendBig,
     DelOther,
+    /// unconditional set writing the very bytes the item already holds (different flags)
+    SetSame,
+    /// CAS set (current token) writing the very bytes the item already holds (different flags)
+    SetCurSame,
     /// store under a key nobody else uses and that is absent initially (exact accounting)
     SetNew,
 }
@@ -55,6 +59,8 @@ pub fn instantiate(t: T, client: usize, key: &[u8], other: &[u8]) -> Cmd {
         T::GetOther => Cmd::Get { key: other.to_vec(), with_key: false, quiet: false },
         T::SetBig => Cmd::Store { kind: StoreKind::Set, key: k, value: vec![b'B'; 40], flags: 70, ttl: 0, cas: CasArg::Zero, quiet: false },
         T::AppendBig => Cmd::Concat { append: true, key: k, value: vec![b'b'; 30], cas: CasArg::Zero, quiet: false },
+        T::SetSame => Cmd::Store { kind: StoreKind::Set, key: k, value: b"10".to_vec(), flags: 90 + client as u32, ttl: 0, cas: CasArg::Zero, quiet: false },
+        T::SetCurSame => Cmd::Store { kind: StoreKind::Set, key: k, value: b"10".to_vec(), flags: 95 + client as u32, ttl: 0, cas: CasArg::Current, quiet: false },
         T::DelOther => Cmd::Delete { key: other.to_vec(), cas: CasArg::Zero, quiet: false },
         T::SetNew => Cmd::Store { kind: StoreKind::Set, key: format!("new{}", client).into_bytes(), value: tag("N"), flags: 80, ttl: 0, cas: CasArg::Zero, quiet: false },
     }
@@ -101,7 +107,7 @@ fn mk(init: Init, clients: Vec<Vec<T>>, key: &[u8], other: &[u8], keys: Vec<Vec<
 
 const INITS: [Init; 3] = [Init::Absent, Init::Present, Init::Expired];
 
-pub const C03_ALPHA: [T; 6] = [T::Get, T::Set, T::SetCur, T::SetStale, T::Del, T::DelCur];
+pub const C03_ALPHA: [T; 8] = [T::Get, T::Set, T::SetCur, T::SetStale, T::Del, T::DelCur, T::SetSame, T::SetCurSame];
 pub const C04_RMW: [T; 6] = [T::Add, T::Replace, T::Append, T::Prepend, T::Incr, T::Decr];
 
 fn opts(max_bound: u32, tier: Tier) -> SchedOpts {
@@ -142,8 +148,9 @@ pub fn c03_families(tier: Tier) -> Vec<Family> {
     if tier == Tier::Thorough {
         // 2 clients x 2 ops
         let mut seqs: Vec<Vec<T>> = vec![];
-        for a in C03_ALPHA {
-            for b in C03_ALPHA {
+        let core = [T::Get, T::Set, T::SetCur, T::SetStale, T::Del, T::DelCur, T::SetCurSame];
+        for a in core {
+            for b in core {
                 seqs.push(vec![a, b]);
             }
         }
@@ -315,6 +322,31 @@ pub fn c14_families(tier: Tier) -> Vec<Family> {
                 }
             }
             fams.push(Family { name: format!("2x1/L={}/{}", limit, kname), programs: p2, opts: SchedOpts { max_bound: if tier == Tier::Quick { 2 } else { 3 }, ..o } });
+            // 2 clients x 2 ops: a racing pair followed by further stores (mis-accounting caused by
+            // the race must not let the following stores exceed the bound)
+            if limit >= 60 {
+                let firsts = [T::Set, T::Del, T::SetBig, T::Incr];
+                let seconds = [T::SetBig, T::SetOther];
+                let mut p22 = vec![];
+                for init in [Init::Present] {
+                    for a in firsts {
+                        for b in firsts {
+                            if (a as u8) > (b as u8) {
+                                continue;
+                            }
+                            for c in seconds {
+                                for d in seconds {
+                                    if tier == Tier::Quick && c != d {
+                                        continue;
+                                    }
+                                    p22.push(mk(init, vec![vec![a, c], vec![b, d]], K, other, keys.clone(), Policy::Random(limit)));
+                                }
+                            }
+                        }
+                    }
+                }
+                fams.push(Family { name: format!("2x2/L={}/{}", limit, kname), programs: p22, opts: SchedOpts { max_bound: if tier == Tier::Quick { 1 } else { 2 }, ..o } });
+            }
             if !p3.is_empty() {
                 fams.push(Family { name: format!("3x1/L={}/{}", limit, kname), programs: p3, opts: SchedOpts { max_bound: if tier == Tier::Quick { 1 } else { 2 }, ..o } });
             }
@@ -346,6 +378,44 @@ pub fn c15_families(tier: Tier) -> Vec<Family> {
         }
         fams.push(Family { name: format!("2x1/{}", kname), programs: p2, opts: o });
         fams.push(Family { name: format!("3x1/{}", kname), programs: p3, opts: SchedOpts { max_bound: if tier == Tier::Quick { 2 } else { 3 }, ..o } });
+    }
+    fams
+}
+
+/// C01, concurrent part: read-your-writes and key isolation while another client works on a
+/// different key (same shard and other shard), every initial state; plus one client's own
+/// store-then-get against a concurrent get of the same key.
+pub fn c01_families(tier: Tier) -> Vec<Family> {
+    let (same, diff) = sibling_keys(K);
+    let mut fams = vec![];
+    let o = opts(if tier == Tier::Quick { 3 } else { 64 }, tier);
+    // client 0 works on K, client 1 on the other key (templates *Other) or reads K
+    let mine: Vec<Vec<T>> = vec![vec![T::Set, T::Get], vec![T::Add, T::Get], vec![T::Get, T::Set], vec![T::Append, T::Get], vec![T::Incr, T::Get]];
+    let theirs: Vec<Vec<T>> = vec![
+        vec![T::SetOther],
+        vec![T::GetOther],
+        vec![T::DelOther],
+        vec![T::SetOther, T::DelOther],
+        vec![T::DelOther, T::SetOther],
+        vec![T::SetOther, T::GetOther],
+        vec![T::Get],
+        vec![T::Get, T::Get],
+        vec![T::Flush],
+    ];
+    for (kname, other) in [("same-shard", &same), ("other-shard", &diff)] {
+        let keys = vec![K.to_vec(), other.clone()];
+        let mut progs = vec![];
+        for init in INITS {
+            for a in &mine {
+                for b in &theirs {
+                    if tier == Tier::Quick && b.contains(&T::Flush) && a[0] != T::Set {
+                        continue;
+                    }
+                    progs.push(mk(init, vec![a.clone(), b.clone()], K, other, keys.clone(), Policy::None));
+                }
+            }
+        }
+        fams.push(Family { name: format!("own-key-vs-other/{}", kname), programs: progs, opts: o });
     }
     fams
 }
